@@ -375,7 +375,7 @@ def r1_r2_r7(ctx):
             continue
         # invariant-guarded: not decided here, listed in the evidence
         ctx.note("invariant-guarded panic site (not judged): %s %s" % (key, st.message))
-    ctx.floor("explicit panic sites in the script-facing layer", n_explicit, 30)
+    ctx.floor("explicit panic sites in the script-facing layer", n_explicit, 17)    # 37 on the pinned tree; 20 were dynamic-type panics, repaired (D1)
     ok, why = ob_arity(ctx)
     if ok:
         ctx.ok("R2|arity", "", why)
